@@ -392,6 +392,7 @@ class Gen:
         ds = self._data_for(m0)
         long_span = "partial" if (base0.get("src") == "sample" and base0["fam"] == "billing") else r.choice(["month", "full"])
         if mode == "C01":
+            doc_pre = self.store(m0)     # written before the object has predicted anything
             self.predict(m0, ds[0], ignore=True)
             if self.models[m0]["fam"] in ("daily", "billing"):
                 self.emit("PREDICT_GRID", m=m0, d=N_DATA_SLOTS - 1)
@@ -432,6 +433,10 @@ class Gen:
                 self.emit("PREDICT_GRID", m=m2, d=N_DATA_SLOTS - 1)
                 self.cost += 1.0
             self.emit("INSPECT", m=m2)
+            # the document written before any prediction: read back, used, written again — still that document
+            mp = self.load(doc_pre, mslot=m1)
+            self.predict(mp, d_l, ignore=True)
+            self.store(mp)
             # the unchanged document is read twice: the first object read back is fitted again on another meter in
             # between (what a caller may do with an object it owns), the second read-back must still be the stored model
             mm = self.models[m2]
